@@ -56,7 +56,7 @@ func refHandler(backend string, g int, noKey bool) *dnsserver.FBDNSDB {
 func refResponse(backend string, g int, noKey bool, q *QRec) *dns.Msg {
 	refMu.Lock()
 	defer refMu.Unlock()
-	key := fmt.Sprintf("%s-%d-%v-%d-%d-%v-%d", backend, g, noKey, q.Q.Q, q.Q.Client, q.Q.EDNS, q.Q.ECS)
+	key := fmt.Sprintf("%s-%d-%v-%d-%d-%v-%d-%v", backend, g, noKey, q.Q.Q, q.Q.Client, q.Q.EDNS, q.Q.ECS, q.Q.BadVers)
 	if m, ok := refAnswers[key]; ok {
 		return m
 	}
@@ -140,7 +140,7 @@ func diffResponses(got, want *dns.Msg, weighted bool) string {
 
 func drawC12(rt *rapid.T, tier string) SrvScenario {
 	o := srvDrawOpts{backends: []string{"cdb", "cdb", "cdb", "cdb", "cdb", "rdb1", "rdb2"}, maxClients: 4, maxQueries: 6, maxOps: 4,
-		faults: []string{"missing", "nokey", "inject"}, cache: true, jumps: true, ecs: true}
+		faults: []string{"missing", "nokey", "inject"}, cache: true, jumps: true, ecs: true, badvers: true}
 	if tier == "thorough" {
 		o.backends = []string{"cdb", "cdb", "rdb1", "rdb2"}
 		o.maxQueries = 8
